@@ -190,6 +190,26 @@ def prefix_battery():
     return out
 
 
+def source_list_battery():
+    """the list after FROM in its shapes: comma lists, every join word, ON / USING, aliases, sub-queries, a comma behind a
+    join, and parenthesised groups of joined sources (nested, aliased members, at either end)"""
+    kinds = ["join", "inner join", "left join", "left outer join", "right join", "right outer join", "full join", "full outer join", "cross join"]
+    out = ["select * from a", "select * from a, b", "select * from a, b, c x", "select * from a, b join c on x = y, d", "select * from (a join b on p = q)",
+           "select * from a join (select 1 as k) z on z.k = a.k", "select * from a x join b as y on x.p = y.q, (select 2) w",
+           "select * from a join b using (k)", "select * from a join b using (k1, k2) join c using (k3)",
+           "select * from a join (b join c on p = q) on r = s", "select * from a join (b join (c cross join d) on p = q) on r = s",
+           "select * from a left join (b x join c y on x.p = y.q, d) on r = s join e using (k)", "select * from a, (b join c on p = q), d",
+           "select * from a join (b, c) on r = s", "select * from (a join b on p = q) join (c join d on t = u) on v = w",
+           "select * from a cross join (b left join c using (k))", "delete from t where x in (select k from a join (b join c on p = q) on r = s)",
+           "select * from a join (b join c on p = q) on r = s where a.k > 1 order by 1"]
+    for k in kinds:
+        cond = "" if k == "cross join" else " on p = q"
+        out.append("select * from a %s b%s" % (k, cond))
+        out.append("select * from a %s (b %s c%s)%s" % (k, k, cond, cond))
+        out.append("select * from a x %s b y%s %s c z%s" % (k, cond, k, cond))
+    return out
+
+
 def collate_non_name(t):
     """a COLLATE whose second operand is not a plain name (the formatter prints that operand's Python repr)"""
     if isinstance(t, dict):
@@ -260,6 +280,7 @@ def run(ctx, scale=1):
     bad_edges = known_c04_edges()
     stmts = pool.statements(ctx, n_gen=(800 if ctx.quick else 12000) * scale)
     stmts += [{"sql": q, "dialect": "common", "origin": "prefix-battery"} for q in prefix_battery()]
+    stmts += [{"sql": q, "dialect": "common", "origin": "source-list-battery"} for q in source_list_battery()]
     g = Q.QueryGen(ctx.rng, ctx.gen["ops"])
     for _ in range((800 if ctx.quick else 15000) * scale):
         g.n = 0
